@@ -49,16 +49,22 @@ class Report(object):
         self.items.append({"rule": rule, "instance": instance, "status": "ok",
                            "detail": detail, "where": where})
 
-    def fail(self, rule, key, detail, where="", witness=""):
-        """an obligation failed; key identifies rule + construct (no line numbers)."""
+    def fail(self, rule, key, detail, where="", witness="", signature=None):
+        """an obligation failed; key identifies rule + construct (no line numbers).
+        signature (optional): extra structured description kept in the evidence."""
         full_key = "%s|%s" % (rule, key)
         status = "violation"
         for k in self.known:
-            if k.get("status", "known") == "known" and k["key"] == full_key:
+            if k.get("status", "known") != "known":
+                continue
+            if k.get("key") == full_key:
                 status = "known"
                 k["_matched"] = True
-        self.items.append({"rule": rule, "instance": key, "key": full_key, "status": status,
-                           "detail": detail, "where": where, "witness": witness})
+        item = {"rule": rule, "instance": key, "key": full_key, "status": status,
+                "detail": detail, "where": where, "witness": witness}
+        if signature is not None:
+            item["signature"] = signature
+        self.items.append(item)
 
     def check(self, cond, rule, key, detail_ok, detail_fail=None, where="", witness=""):
         if cond:
